@@ -21,6 +21,13 @@ def main():
             k = job["kind"]
             if k == "colldiff":
                 r = colldiff(*job["case"])
+            elif k == "default_budget":
+                import types
+                from xdist.dsession import get_default_max_worker_restart
+                o, np = job["case"]
+                cfg = types.SimpleNamespace(option=types.SimpleNamespace(maxworkerrestart=None if o is None else str(o), numprocesses=np))
+                v = get_default_max_worker_restart(cfg)
+                r = [] if v is None else [int(v)]
             else:
                 import drive_pure_ext
                 r = drive_pure_ext.dispatch(job)
